@@ -136,7 +136,7 @@ def run_instances(ctx, stream, insts):
 def run(ctx: Ctx):
     run_witnesses(ctx)
     quick = ctx.quick()
-    n = 6000 if quick else 100000
+    n = ctx.size(6000, 100000)
     for name, comps in (("c11-random-plain", gen.PLAIN), ("c11-random-adversarial", gen.IDENT_ADVERSARIAL)):
         s = Stream(ctx, name)
         rng = ctx.rng(name)
